@@ -9,6 +9,7 @@ import (
 	"runtime"
 	"sort"
 	"strings"
+	"sync"
 	"testing/synctest"
 	"time"
 )
@@ -44,6 +45,8 @@ type clusterRun struct {
 	lastOpT   time.Duration
 	stepCount int
 	heavyEvery int
+	customOp  func(rec *opRec) bool
+	mu        sync.Mutex // guards the bookkeeping maps (ops run on concurrent client goroutines)
 }
 
 func (cx *clusterRun) node(i int) *SimNode {
@@ -111,11 +114,22 @@ func (cx *clusterRun) joinAddrs(l []int64) []string {
 	return out
 }
 
+func (cx *clusterRun) setT(m map[int]time.Duration, k int, onlyIfAbsent bool) {
+	cx.mu.Lock()
+	if _, ok := m[k]; !ok || !onlyIfAbsent {
+		m[k] = cx.c.Sim.Now()
+	}
+	cx.mu.Unlock()
+}
+
 func (cx *clusterRun) execOp(rec *opRec) {
 	op := rec.Op
 	n := cx.node(op.Node)
 	if n == nil {
 		rec.Err = "no such node"
+		return
+	}
+	if cx.customOp != nil && cx.customOp(rec) {
 		return
 	}
 	switch op.Kind {
@@ -142,7 +156,7 @@ func (cx *clusterRun) execOp(rec *opRec) {
 			rec.Err = "not running"
 			return
 		}
-		cx.crashT[n.idx] = cx.c.Sim.Now()
+		cx.setT(cx.crashT, n.idx, false)
 		n.crash(op.A == 1)
 	case "restart":
 		if !n.created || !n.crashed {
@@ -162,10 +176,15 @@ func (cx *clusterRun) execOp(rec *opRec) {
 		n.created = false
 		n.leftCalled = false
 		n.mu.Lock()
-		n.meta = []byte(fmt.Sprintf("m-r%d-%s", cx.restarts[n.idx]+1, n.name))
+		cx.mu.Lock()
+		rn := cx.restarts[n.idx] + 1
+		cx.mu.Unlock()
+		n.meta = []byte(fmt.Sprintf("m-r%d-%s", rn, n.name))
 		n.mu.Unlock()
+		cx.mu.Lock()
 		cx.restarts[n.idx]++
 		delete(cx.crashT, n.idx)
+		cx.mu.Unlock()
 		if err := cx.cl.create(n, nil); err != nil {
 			rec.Err = err.Error()
 			return
@@ -182,15 +201,22 @@ func (cx *clusterRun) execOp(rec *opRec) {
 			rec.Err = "not running"
 			return
 		}
+		cx.mu.Lock()
 		if !n.leftCalled {
 			n.leftCalled = true
 			n.leaveInc = n.m.incarnation.Load()
 			cx.leaveT[n.idx] = cx.c.Sim.Now()
 		}
-		if err := n.m.Leave(time.Duration(op.A) * time.Millisecond); err != nil {
+		cx.mu.Unlock()
+		n.leaveGate <- struct{}{}
+		err := func() error {
+			defer func() { <-n.leaveGate }()
+			return n.m.Leave(time.Duration(op.A) * time.Millisecond)
+		}()
+		if err != nil {
 			rec.Err = err.Error()
-		} else if _, ok := cx.leaveDone[n.idx]; !ok {
-			cx.leaveDone[n.idx] = cx.c.Sim.Now()
+		} else {
+			cx.setT(cx.leaveDone, n.idx, true)
 		}
 	case "shutdown":
 		if !n.created || n.m == nil {
@@ -198,10 +224,13 @@ func (cx *clusterRun) execOp(rec *opRec) {
 			return
 		}
 		n.shutCalled = true
-		if _, ok := cx.crashT[n.idx]; !ok {
-			cx.crashT[n.idx] = cx.c.Sim.Now()
-		}
-		if err := n.m.Shutdown(); err != nil {
+		cx.setT(cx.crashT, n.idx, true)
+		n.shutGate <- struct{}{}
+		err := func() error {
+			defer func() { <-n.shutGate }()
+			return n.m.Shutdown()
+		}()
+		if err != nil {
 			rec.Err = err.Error()
 		}
 		n.crashed = true
